@@ -351,8 +351,10 @@ _LOCK = threading.Lock()
 
 
 def run_schedule(schedule, out=(), err=(), in_script=None, in_tty=False, pty=False, hold_open=False,
-                 start_fails=False, read_size=1000, explicit_streams=True, **kw):
-    """Execute one schedule on the real Runner.  Returns a dict of observations."""
+                 start_fails=False, read_size=1000, explicit_streams=True, asynchronous=False, **kw):
+    """Execute one schedule on the real Runner.  Returns a dict of observations.
+    asynchronous: `run(asynchronous=True)` returns a Promise (workers and timer already running); the main thread
+    then parks at an extra gate `main:join` before calling `Promise.join()` (Lean: `MainPc.idle`)."""
     with _LOCK:
         sched = Sched()
         env = Env(out=out, err=err, hold_open=hold_open)
@@ -377,7 +379,12 @@ def run_schedule(schedule, out=(), err=(), in_script=None, in_tty=False, pty=Fal
             def main():
                 threading.current_thread().actor = "main"
                 try:
-                    res = r.run("cmd", in_stream=ins, encoding="utf-8", **kw)
+                    if asynchronous:
+                        promise = r.run("cmd", in_stream=ins, encoding="utf-8", asynchronous=True, **kw)
+                        sched.gate("main", "join")
+                        res = promise.join()
+                    else:
+                        res = r.run("cmd", in_stream=ins, encoding="utf-8", **kw)
                     obs["result"] = ("return", res.stdout, res.stderr, res.exited)
                 except Abort:
                     return
